@@ -73,7 +73,7 @@ theorem C03_flushed_at_eof (cfg : Cfg) {s : State} (h : Reachable cfg s) (hws : 
   | none => have := (h1.none_ hw).2.2.2.2.1; rw [hws] at this; simp at this
   | some w =>
     have hp := h1.some_ w hw
-    have hg : (phaseOf w.pc).gone = true := by
+    have hg : (phaseOf w.graceful w.pc).gone = true := by
       have := hp.2.2.2.2.2.2.1
       rw [hws] at this
       cases hpc : w.pc <;> simp [hpc, phaseOf] at this ⊢
@@ -114,6 +114,16 @@ theorem C03_no_accept_after_shutdown (cfg : Cfg) {s s' : State} (h : Reachable c
   · exact h'
   · exact absurd ((inv2_reachable h).sendRunning _ (List.mem_of_getElem? h') p rfl) hst
 
+/-- the graceful Close never shuts the receive side of the socket (only ForceClose does): a socket whose receive
+  side is shut and whose FIN is out is reset by the kernel when data of the peer arrives, which destroys flushed
+  data it has not transmitted yet — with the receive side open, "written" means "delivered, then end-of-stream"
+  (trusted: TCP).  The reader is released by a read deadline in the past instead (`C04_no_stuck`). -/
+theorem C03_graceful_read_open (cfg : Cfg) {s : State} (h : Reachable cfg s) (w : Winner) (hw : s.win = some w)
+    (hg : w.graceful = true) : s.readShut = false := by
+  have hp := (inv1_reachable h).some_ w hw
+  rw [hp.2.2.1, hg]
+  cases w.pc <;> rfl
+
 /-- inbound: the frames the reader decoded are exactly the frames at the head of what the peer sent, in wire
   order, each once; every decoded frame was put into the inbound queue, or is the one being handed over, or
   is the (at most one) frame abandoned because the connection was closing; the inbound queue is FIFO. -/
@@ -141,7 +151,7 @@ def exP (n : Nat) : Pkt := ⟨n, 10 + n, true⟩
 /-- Go; three packets are accepted while the writer has taken only the first; Close runs to completion
   (the writer flushes the backlog of two on `done`); the reader leaves after CloseRead. -/
 def exBacklog : List Action :=
-  [.start, .peerSend (.frame (exP 100)), .rFrame, .rPush,
+  [.start, .peerSend (.frame (exP 100)), .rArm, .rChk, .rFrame, .rPush,
    .sendCall 0 (exP 1), .snd 0, .snd 0, .snd 0, .snd 0, .wRecv,
    .sendCall 0 (exP 2), .snd 0, .snd 0, .snd 0, .snd 0,
    .sendCall 0 (exP 3), .snd 0, .snd 0, .snd 0, .snd 0,
